@@ -252,6 +252,21 @@ def r19e(P, R):
     cf = [c for c in g.walk() if c.get("k") == "MethodCall" and (call_name(c) or "") == TASK + "::contains_file"]
     ok = bool(cf) and has_call(pv.atoms(cf[0]["args"][0]), "resolve_relative_path")
     R.check("R19-e", "required-skips-loaded", ok, "already supplied files are not asked for again", "get_required_files does not skip files the task already has", loc=g.loc())
+    # ... and the answer is a pure function of the files supplied: the query does not modify the task, and nothing is removed
+    # from the list once computed
+    from templates import LOSSY_OR_REORDERING
+    muts = []
+    for c in g.walk():
+        if c.get("k") == "MethodCall":
+            cn = call_name(c) or ""
+            if cn.startswith(TASK + "::") and cn in P.fns and (P.fns[cn].sig_inputs or [""])[0].startswith("&mut"):
+                muts.append(short(cn))
+    trimmed = [c["method"] for c in g.walk() if c.get("k") == "MethodCall" and c["method"] in (LOSSY_OR_REORDERING | {"retain", "retain_mut", "drain", "truncate", "pop", "remove", "clear"})
+               and "PathBuf" in norm(c.get("recv_ty", ""))]
+    R.check("R19-e", "required-is-a-query", not muts and not trimmed, "get_required_files only reads the task and only appends to its answer",
+            "get_required_files %s: the files a task asks for depend on how often it was asked, not only on the files supplied (a file "
+            "reported once and never supplied disappears from later answers)"
+            % ("; ".join(x for x in (("calls mutating Task methods %s" % muts) if muts else "", ("post-filters its answer with %s" % trimmed) if trimmed else "") if x)), loc=g.loc())
     # emit_js prints the document of *this* task with the config passed in
     e = P.fn(L + "loader::emit_js")
     pve = Prov(e)
